@@ -261,8 +261,38 @@ def _filtered(ex, a, count, body_at, deltas_of, extra, loop_id, p):
     return Lst(n=m, at=lambda i: item_at(src(i)), tag=("filter", src, pos))
 
 
+class _Rename(ast.NodeTransformer):
+    def __init__(self, mapping):
+        self.mapping = mapping
+
+    def visit_Name(self, n):
+        return ast.copy_location(ast.Name(id=self.mapping.get(n.id, n.id), ctx=n.ctx), n)
+
+
+def comp_key(ex, elt, g, seq, p):
+    """Identity of a comprehension as a value: same element/filter text (bound names normalised), same iterated
+    list object, same values of its free variables => same list (element expressions are pure reads)."""
+    bound = sorted(_target_names(g.target))
+    ren = _Rename({b: f"_b{k}" for k, b in enumerate(bound)})
+    import copy
+    parts = [ast.dump(ren.visit(copy.deepcopy(x))) for x in [g.target, elt] + list(g.ifs)]
+    free = sorted({n.id for x in [elt] + list(g.ifs) for n in ast.walk(x) if isinstance(n, ast.Name)} - set(bound))
+    fv = tuple((nm, id(p.env[nm])) if nm in p.env else (nm, ex.module.name) for nm in free)
+    return (id(seq), tuple(parts), fv, tuple(str(t) for t in ex.index_ctx))
+
+
 def filtered_list(ex, elt, g, seq: Lst, p):
     """[elt for x in seq if cond] over a symbolic list (comprehension form of the filter summary)."""
+    cache = ex.trace.setdefault("_comp_cache", {})
+    key = comp_key(ex, elt, g, seq, p)
+    if key in cache:
+        return cache[key][0]
+    res = _filtered_list(ex, elt, g, seq, p)
+    cache[key] = (res, seq)  # keep seq alive so that id() stays unique
+    return res
+
+
+def _filtered_list(ex, elt, g, seq: Lst, p):
     loop_id = next(_loop_ids)
     tag = fresh_name(f"cf{loop_id}")
     m = z3.Int(tag + "_n")
